@@ -19,12 +19,14 @@ LEVEL_TEXT = ("For ordered and unordered generators on 3 backends: every positio
               "pull count before close/drop, overlapping-call attempt, single pre-emption anywhere and completion picks: "
               "promptness (no waiting for later tasks), order / exactly-once, RuntimeError on overlap, clean reuse.")
 LEVEL_NOTE = ("Trusted: CrossHair/z3 for completeness; parsim. Promptness is checked as 'next() returns although a later "
-              "batch can never complete'. Outside: gc of the generator in a foreign thread (_GeneratorExitThread), more "
-              "than K pre-emptions, wall-clock latency.")
+              "batch can never complete'. A generator closed by a foreign thread: joblib's detached abort thread is run by "
+              "the harness atomically at a chosen switch point of the caller's timeline (not interleaved statement by "
+              "statement). Outside: more than K pre-emptions, wall-clock latency.")
 EXPLANATION = "Generator protocol of Parallel explored over schedules, pull points and stuck batches."
 STUBS = ["parsim", "warnings cut"]
-ASSUMES = ["callbacks serialised on one thread", "generator closed/dropped in the thread that created it"]
-OUTSIDE = ["generator collected by another thread", "more than K pre-emptions"]
+ASSUMES = ["callbacks serialised on one thread",
+           "foreign_close/*: the detached abort thread runs atomically, at a point where the caller holds no lock"]
+OUTSIDE = ["statement-level interleaving of the detached abort thread", "more than K pre-emptions"]
 
 _BASE = {}
 
@@ -87,6 +89,42 @@ def ob_prompt(stuck: int, pk: int, pos0: int) -> bool:
             probs.append("did not finish")
         for m in probs:
             H.note("stuck=%d preempt=%r: %s" % (st, pre, m))
+        return H.verdict(not probs)
+
+
+def ob_prompt_producer(j: int, pos0: int) -> bool:
+    """
+    pre: 0 <= j <= 4
+    pre: -1 <= pos0 <= 600
+    post: _
+    """
+    H.enter()
+    # The *input producer* is not ready with item j (and will not be until the consumer has moved on - a pipeline with
+    # feedback, a queue the consumer fills): results that have completed must still be delivered.
+    steps = _BASE["steps"]
+    H.assume(pos0 <= steps)
+    jj, p0 = H.select(j, 0, 4), H.select_bisect(pos0, -1, steps)
+    # item j >= pre_dispatch is taken by the completion callback, which holds Parallel's lock meanwhile: recorded finding
+    H.known("KF-C16-producer-blocks-delivery", jj >= 2)
+    with H.native():
+        calls = [dict(n_tasks=6, slow_at=jj, slow_kind="forever", pulls="available", end="close")]
+        pre = [(p0, 0)] if p0 >= 0 else []
+        o = parlib.run(_cfg(H.PARAMS, calls), dict(preempt=pre, picks=[]))
+        probs = _common(o)
+        if o.calls:
+            rec = o.calls[0]
+            pulls_at = rec.get("pull_events", [])
+            for e in o.iter_log:
+                if e[0] == "consumer-blocked":
+                    delivered = len([x for x in pulls_at if x <= e[3]])
+                    if e[4] - delivered > 0:
+                        probs.append("the consumer is blocked on Parallel's lock - held by the completion callback that waits "
+                                     "for input item %d - while %d finished result(s) are undelivered" % (e[2], e[4] - delivered))
+                        break
+        else:
+            probs.append("did not finish")
+        for m in probs:
+            H.note("producer not ready with item %d, preempt=%r: %s" % (jj, pre, m))
         return H.verdict(not probs)
 
 
@@ -346,4 +384,9 @@ def obligations(tier, seed):
                     "bounds": "6 tasks, 0/1/3/5 pulls, then close() from a foreign thread; joblib's detached abort thread gets "
                               "the CPU at once or 0..40 switch points later (in the caller's timeline, lock free); a 3-task "
                               "call meanwhile, a 2-task call afterwards; one pre-emption at every 4th switch point"})
+    for be, ra in [("threading", "generator"), ("loky", "generator_unordered")]:
+        obs.append({"name": "prompt_producer/%s/%s" % (be, ra), "fn": "ob_prompt_producer", "mode": "S",
+                    "kf": ["KF-C16-producer-blocks-delivery"], "params": {"backend": be, "return_as": ra}, "timeout": 600,
+                    "bounds": "6 tasks, the input producer is not ready with item 0..4 until the consumer has moved on; "
+                              "one pre-emption anywhere"})
     return obs
